@@ -1,12 +1,19 @@
 /-
   C09 — TCPCL termination is graceful, complete and always finishes.
-  Safety half proved here; the liveness half (both endpoints closed within a bounded number of steps
-  at quiescence) is not yet a theorem and is decided by the implementation-side monitor on every run.
+  Safety (one SESS_TERM each, reply flag, nothing started after it, unstarted transfers reported, no
+  half-open session, closed is final, nothing silently dropped), the agent over several contacts
+  (`stop()` closes every contact, `shutdown()` reaches every contact and stops only when all have
+  closed) and "always finishes" as deadlock freedom: `C09_no_deadlock_partial` — in every reachable
+  state of the two-endpoint system in which no internal event is enabled any more and termination was
+  requested, both endpoints have closed (keepalive-free runs; with keepalives the armed timers are what
+  is left enabled, see C14). A bound on the number of steps is not proved; the implementation-side
+  monitor runs every generated schedule to quiescence within a fixed event budget.
 -/
 import DtnVerif.Lemmas.TcpclSys
 import DtnVerif.Lemmas.TcpclKInv
 import DtnVerif.Lemmas.TcpclWake
 import DtnVerif.Lemmas.TcpclAgent
+import DtnVerif.Lemmas.TcpclQuietSys
 namespace DtnVerif
 namespace Tcpcl
 
@@ -196,6 +203,86 @@ theorem C09_terminate_keeps_progress (e : Ep) (r : Nat) (hi : WakeInv e) :
         · simp only [flushPendStart, sendMessage, sendReady, kaReset, idleReset, setState]
           split <;> rfl
 
+
+
+/-! ### always finishes: no deadlock while terminating -/
+
+/-- nothing more can happen in the two-endpoint system without a user action or a timer: nothing in
+    flight, no idle source for `_process_queue` and no TX source at either endpoint, and a closed
+    endpoint's end-of-stream has been delivered to its peer -/
+structure Quiescent (s : Sys) : Prop where
+  toA : s.toA = []
+  toB : s.toB = []
+  pqA : s.a.pqSources = 0
+  pqB : s.b.pqSources = 0
+  txA : s.a.txSrc = 0
+  txB : s.b.txSrc = 0
+  eofB : s.a.closed = true → s.b.closed = true
+  eofA : s.b.closed = true → s.a.closed = true
+
+/-- **Termination always finishes (no deadlock).** Take any schedule of the two-endpoint system — any
+    user calls on both sides including `terminate()` by either or both at any moment, any chunking and
+    delay of the two octet streams, any partial or blocked writes — and suppose it has reached a state
+    in which no internal event is enabled any more (`Quiescent`) and at least one side has requested or
+    answered termination. Then both endpoints have closed the connection: the session cannot be left
+    half-open or waiting for something that will never come. Stated for keepalive-free runs (no
+    KEEPALIVE was ever sent): with keepalives enabled the keepalive timers stay armed while the
+    connection is open, so such a state is not quiescent in the first place; that case is covered by
+    the idle/keepalive timer theorems of C14 and by the implementation-side monitor. -/
+theorem C09_no_deadlock_partial (cfgA cfgB : Cfg) (sch : List SysEv)
+    (a1 : 0 < cfgA.segInit) (a2 : cfgA.privExt = false) (a3 : 0 < cfgA.segMru)
+    (b1 : 0 < cfgB.segInit) (b2 : cfgB.privExt = false) (b3 : 0 < cfgB.segMru)
+    (hwf : ∀ pre, pre <+: sch → SysWF (runSys (initSys cfgA cfgB) pre))
+    (hs : ∀ ev ∈ sch, ev.sendOK) :
+    let s := runSys (initSys cfgA cfgB) sch
+    Quiescent s → (s.a.inTerm = true ∨ s.b.inTerm = true) →
+    (∀ m ∈ s.a.emitted, m ≠ .keepalive) → (∀ m ∈ s.b.emitted, m ≠ .keepalive) →
+    s.a.closed = true ∧ s.b.closed = true := by
+  intro s hq hterm nokaA nokaB
+  obtain ⟨ha, hb⟩ := epAll_reachable cfgA cfgB sch a1 a2 a3 b1 b2 b3 hwf hs
+  have hi : SysInv s := sysInv_run sch _ (sysInv_init cfgA cfgB a1 a2 a3 b1 b2 b3) hwf hs
+  have hw : SysWF s := hwf sch (List.prefix_refl _)
+  by_cases hao' : s.a.closed = true
+  · exact ⟨hao', hq.eofB hao'⟩
+  have hao : s.a.closed = false := by simpa using hao'
+  have hbo : s.b.closed = false := by
+    cases hb' : s.b.closed
+    · rfl
+    · have := hq.eofA hb'; rw [hao] at this; cases this
+  -- both still open: everything emitted has been processed by the other side
+  exfalso
+  obtain ⟨pAB, rB⟩ := quiet_wire s.a s.b s.toB ha hb hw.1 hi.wireB hq.toB hao hbo hq.txA
+  obtain ⟨pBA, rA⟩ := quiet_wire s.b s.a s.toA hb ha hw.2 hi.wireA hq.toA hbo hao hq.txB
+  rcases hterm with ht | ht
+  · obtain ⟨gb, tb⟩ := term_reaches s.a s.b ha hb pAB ht
+    obtain ⟨ga, _⟩ := term_reaches s.b s.a hb ha pBA tb
+    have := quiet_not_open s.a s.b ha hb pAB pBA rA hw.2 hbo hq.pqA hq.txA hq.pqB hq.txB ht ga tb nokaB
+    rw [hao] at this; cases this
+  · obtain ⟨ga, ta⟩ := term_reaches s.b s.a hb ha pBA ht
+    obtain ⟨gb, _⟩ := term_reaches s.a s.b ha hb pAB ta
+    have := quiet_not_open s.b s.a hb ha pBA pAB rB hw.1 hao hq.pqB hq.txB hq.pqA hq.txA ht gb ta nokaA
+    rw [hbo] at this; cases this
+
+/-! non-vacuity: a run which meets every hypothesis of `C09_no_deadlock_partial` -/
+namespace ExampleTerm
+open Example in
+/-- the C01 example (hand-shake cut across reads, one bundle in two segments), then A asks to terminate,
+    B answers, both write their SESS_TERM out and the leftover idle sources fire -/
+def sched : List SysEv := Example.sched ++ [.atA .procQueue, .atA (.terminate 0), .atA (.pump 10240), .atA (.pump 10240),
+  .deliverB 100, .atB (.pump 10240), .atB (.pump 10240), .deliverA 100, .atA .procQueue, .atB .procQueue]
+
+example : (List.range (sched.length + 1)).all
+    (fun k => decide (SysWF (runSys (initSys Example.cfgA Example.cfgB) (sched.take k)))) = true := by decide +kernel
+
+example : let s := runSys (initSys Example.cfgA Example.cfgB) sched
+    s.toA = [] ∧ s.toB = [] ∧ s.a.pqSources = 0 ∧ s.b.pqSources = 0 ∧ s.a.txSrc = 0 ∧ s.b.txSrc = 0
+    ∧ s.a.inTerm = true ∧ (s.a.emitted ++ s.b.emitted).all (fun m => m != .keepalive) = true
+    ∧ s.a.closed = true ∧ s.b.closed = true ∧ s.a.successLog = [1] := by decide +kernel
+
+/-- one event earlier A is still open, waiting for B's SESS_TERM which is in flight: not quiescent -/
+example : let s := runSys (initSys Example.cfgA Example.cfgB) (sched.take (sched.length - 3))
+    s.a.closed = false ∧ s.b.closed = true ∧ s.toA ≠ [] := by decide +kernel
+end ExampleTerm
 
 /-! ### the agent over several contacts (tcpcl/agent.py) -/
 
